@@ -139,3 +139,36 @@ void hk_work(unsigned n) {
   for (i = 0; i < n; i++) x = x * 6364136223846793005UL + 1442695040888963407UL;
   hk_sink = x;
 }
+
+/* ---- no-progress watch: a plain OS thread reports <key> when hk_progress() has not been called for `secs`
+   seconds (generous wall-clock bound; an operation that "everyone returns" from takes microseconds).  It turns a
+   workload that will never finish into a named verdict long before the driver's time-out. ---- */
+#include <pthread.h>
+#include <stdatomic.h>
+static _Atomic unsigned long long g_progress;
+static const char * g_watch_key;
+static int g_watch_secs;
+void myth_verif_real_usleep(unsigned us);
+void myth_verif_violation(const char * key, const char * fmt, ...);
+void hk_progress(void) { atomic_fetch_add_explicit(&g_progress, 1, memory_order_relaxed); }
+static void * hk_watch_main(void * a) {
+  (void)a;
+  unsigned long long last = atomic_load(&g_progress);
+  int idle_ticks = 0;
+  for (;;) {
+    myth_verif_real_usleep(500000);
+    unsigned long long now = atomic_load(&g_progress);
+    if (now != last) { last = now; idle_ticks = 0; continue; }
+    if (++idle_ticks >= g_watch_secs * 2) {
+      myth_verif_violation(g_watch_key, "no operation completed for %d s (%llu completed before); last breadcrumb of this run: see events above", g_watch_secs, now);
+      _exit(97);
+    }
+  }
+  return 0;
+}
+void hk_watch_start(const char * key, int secs) {
+  pthread_t t;
+  g_watch_key = key; g_watch_secs = secs;
+  pthread_create(&t, 0, hk_watch_main, 0);
+  pthread_detach(t);
+}
